@@ -80,21 +80,23 @@ class CountingConnection(sqlite3.Connection):
     def cursor(self, *a, **kw):
         return super().cursor(factory=CountingCursor)
 
+    def execute(self, *a, **kw):
+        PLAN.boundary()
+        return super().execute(*a, **kw)
+
+    def executemany(self, *a, **kw):
+        PLAN.boundary()
+        return super().executemany(*a, **kw)
+
     def commit(self):
         PLAN.boundary()
         return super().commit()
 
 
 def install_shim():
-    shim = types.ModuleType("sqlite3_shim")
-    shim.__dict__.update({k: getattr(sqlite3, k) for k in dir(sqlite3)})
-
-    def connect(*a, **kw):
-        kw.setdefault("factory", CountingConnection)
-        return sqlite3.connect(*a, **kw)
-
-    shim.connect = connect
-    tofumod.sqlite3 = shim
+    # however security/tofu.py imports it (module, alias, `from sqlite3 import connect`): see vf/sqlfault.rebind_connect
+    from vf import sqlfault
+    sqlfault.rebind_connect(tofumod, CountingConnection)
 
 
 def read_store(path):
@@ -337,6 +339,8 @@ def main(pid="C12"):
         rep.set("distinct_nontrivial", len(cases))
         rep.set("operations", len(inits))
         rep.set("statement_boundaries_seen", nb_total)
+        if nb_total == 0:
+            raise tlc.TLCError("no statement boundary of the pin store was observed: the fault-injection connection class is not reached")
         rep.set("process_kills", crash_cases)
         rep.set("operations_through_cli", cli_cases)
         rep.add("traces_validated_against_impl", len(cases))
